@@ -20,7 +20,7 @@ static long vfs_gpow[VFS_QMAX];                 // g^e mod p, e in [0,q)
 static long vfs_mulq_t[VFS_QMAX * VFS_QMAX];    // a*b mod q
 #define VFS_M8 -1, -1, -1, -1, -1, -1, -1, -1
 static long vfs_dlog_t[64] = { VFS_M8, VFS_M8, VFS_M8, VFS_M8, VFS_M8, VFS_M8, VFS_M8, VFS_M8 };   // dlog_g(y) for y in the subgroup, -1 otherwise (p < 64)
-static inline void vfs_tables(long p, long q, long g) {
+static void __attribute__((noinline)) vfs_tables(long p, long q, long g) {
   long v = 1; for (long e = 0; e < q; ++e) { vfs_gpow[e] = v; v = (v * g) % p; }
   for (long a = 0; a < q; ++a) for (long b = 0; b < q; ++b) vfs_mulq_t[a * VFS_QMAX + b] = (a * b) % q;
   for (long e = 0; e < q; ++e) vfs_dlog_t[vfs_gpow[e]] = e;
@@ -55,7 +55,13 @@ static void vfs_digest(mpz_ptr r, unsigned n, const long *vals) {
     if (same) { mpz_set_ui(r, vfs_hout[e]); return; }
   }
   vf_assume(vfs_hn < VFS_HMAX);
-  unsigned long o = vf_nondet_below(1UL << H_DBITS);
+  unsigned long o;
+#ifdef VFS_DIGEST_FIX
+  // harness hook: a slice may pin the digest of the call with leading marker tag to a concrete value (>= 0)
+  long fx_ = VFS_DIGEST_FIX(vals[0]);
+  if (fx_ >= 0) o = (unsigned long)fx_; else
+#endif
+  o = vf_nondet_below(1UL << H_DBITS);
   if (vfs_forbid_on) vf_assume((long)o != vfs_forbid);
   VFS_DIGEST_ASSUME(vals[0], o);
 #ifdef H_COLLISION_FREE
@@ -122,6 +128,10 @@ extern "C" void vfs_randomb(mpz_ptr r, unsigned long size) {
   if (vfs_bfix_used < vfs_nbfix) mpz_set_ui(r, (unsigned long)vfs_bfix[vfs_bfix_used++] & ((1UL << size) - 1));
   else mpz_set_ui(r, vf_nondet_below(1UL << size));
 }
+
+// ---------------------------------------------------------------- bounded sampler of the permutation / rotation generators
+// tmcg_mpz_srandom_mod(m) by its contract: an arbitrary value in [0, m) (the sampler itself is the subject of C07)
+extern "C" unsigned long vfstub_random_mod(unsigned long m) { vf_assume(m >= 1); return m == 1 ? 0 : vf_nondet_below(m); }
 
 // ---------------------------------------------------------------- public coins: stand-in for the two-party coin flip
 // JareckiLysyanskayaEDCF::Flip_twoparty(i, a, in, out, err, faulty): the protocol itself is the subject of C17. Here both
